@@ -169,6 +169,8 @@ v:      .word 0
         ldfps #0
         stfps r0
         stst (r1)
+        ldf r1, ac0
+        clrf r2
 """,
 "exprs": """
 a = 5
@@ -625,6 +627,104 @@ def shrink(i, steps, expected):
     return {"first_bad_step": None}
 
 
+# --------------------------------------------------------------------------------------- rewriter conformance
+# The exported behaviours carry the abstract program they were generated on (`prog`) and the program TLC's
+# ApplyStep produced (`final`).  The abstract program is rendered to text, the same steps are applied by
+# harness/lex.py, the result is tokenized again and must equal `final` (token kinds, spellings, register numbers,
+# values, bracket styles; trivia and case aside): lex.apply_step implements Lex.tla's ApplyStep.
+_MN = {1: ["ret", "return"], 2: ["bcc", "bhis"]}
+_DIRS = {0: [".word", ".dw"], 100: [".ascii"], 8: [".repeat"]}
+_OPS = {1: "/", 10: "*"}
+_PLAIN = {"comma": ",", "hash": "#", "at": "@", "pct": "%", "minus": "-", "plus": "+", "dot": ".", "lbrace": "{", "rbrace": "}"}
+
+
+def render_tok(x):
+    k = x["k"]
+    if k == "mn":
+        return lex.render_case(_MN[x["v"]][x["s"]], x["u"])
+    if k == "dir":
+        return lex.render_case(_DIRS[x["v"]][x["s"]], x["u"])
+    if k == "reg":
+        return lex.render_case(lex.reg_forms(x["v"])[x["s"]], x["u"])
+    if k == "num":
+        return lex.render_case(lex.render_number(x["v"], x["s"]), x["u"])
+    if k == "sym":
+        return lex.render_case("ab", x["u"])
+    if k == "str":
+        return "'/"
+    if k == "loc":
+        return "1$"
+    if k == "op":
+        return _OPS[x["v"]]
+    if k == "open":
+        return "(" if x["s"] == 0 else "<" if x["s"] == 1 else "^" + lex.DELIMS[x["v"] - 1]
+    if k == "close":
+        return ")" if x["s"] == 0 else ">" if x["s"] == 1 else lex.DELIMS[x["v"] - 1]
+    if k == "colon":
+        return "::" if x["s"] else ":"
+    if k == "eq":
+        return "==" if x["s"] else "="
+    if k == "nl":
+        return "\n"
+    return _PLAIN[k]
+
+
+def render_abstract(prog):
+    out, opaque = [], False
+    for x in prog:
+        if x["k"] == "nl":
+            opaque = False
+        out.append('"/"' if (opaque and x["k"] == "str") else render_tok(x))
+        if x["k"] == "dir" and x["b"] == 2:
+            opaque = True
+    return " ".join(out)
+
+
+def project(toks):
+    out, opaque = [], False
+    for x in toks:
+        k = x["k"]
+        if k == "nl":
+            opaque = False
+            if out and out[-1] != ("nl",):
+                out.append(("nl",))
+            continue
+        if k in ("triv", "blob") or opaque:
+            continue
+        if k == "dir" and x["b"] == 2:
+            opaque = True
+            out.append(("strdir",))
+        elif k in ("mn", "dir"):
+            out.append((k, x["s"], x["b"]))
+        elif k in ("reg", "num"):
+            out.append((k, x["v"], x["s"]))
+        elif k in ("open", "close"):
+            out.append((k, x["s"], x["v"]))
+        elif k in ("colon", "eq"):
+            out.append((k, x["s"]))
+        else:
+            out.append((k,))
+    while out and out[0] == ("nl",):
+        out.pop(0)
+    return out
+
+
+def conform(e):
+    """-> None if harness/lex.py reproduces TLC's result for this behaviour, else a description"""
+    text0 = render_abstract(e["prog"])
+    back = project([t.abstract() for t in lex.tokenize(text0).toks])
+    if back != project(e["prog"]):
+        return {"where": "render/tokenize round trip", "text": text0, "lex_py": back, "lex_tla": project(e["prog"])}
+    text = text0
+    for st in e["steps"]:
+        text, _, _ = lex.apply_step(text, st)
+    mine = project([t.abstract() for t in lex.tokenize(text).toks])
+    theirs = project(e["final"])
+    if mine != theirs:
+        return {"where": "result of the steps", "text": text0, "rewritten": text, "steps": e["steps"], "lex_py": mine, "lex_tla": theirs}
+    return None
+
+
 # --------------------------------------------------------------------------------------- behaviours
 def dedupe(exports):
     seen, out = set(), []
@@ -716,10 +816,14 @@ def main(run):
             pass
     res_strings, res_sites = results[0], results[1]
     for res in results:
-        require_ok(res)
         run.add_tlc(res)
         if res.violated:
-            run.violation(f"model: invariant {res.violated} violated in Lex.tla ({res.label})", {"tail": res.tail[-3000:]})
+            # (TLC prints the counterexample after further 'Error:' lines; they are not machinery errors)
+            run.violation(f"model: invariant {sorted(set(res.violated))} violated in Lex.tla ({res.label})", {"tail": res.tail[-3000:]})
+        else:
+            require_ok(res)
+    if any(res.violated for res in results):
+        return
     run.note("witnessed_exclusions(ASSUME ExclusionsAreNecessary)", 23)
 
     # ---------------------------------------------------------------- site agreement lex.py <-> Lex.tla
@@ -746,8 +850,17 @@ def main(run):
 
     # ---------------------------------------------------------------- behaviours
     behaviours = []
+    n_conf = 0
     for res in results[2:]:
         behaviours += dedupe(res.exports)
+        for e in res.exports:
+            n_conf += 1
+            bad = conform(e)
+            if bad is not None:
+                run.violation(f"binding: harness/lex.py applies a behaviour differently from Lex.tla ({bad['where']}): "
+                              f"text {bad['text']!r} steps {json.dumps(e['steps'])[:300]} lex.py {bad['lex_py']} Lex.tla {bad['lex_tla']}", bad)
+    run.note("rewriter_conformance_behaviours(lex.py result == Lex.tla final)", n_conf)
+    run.add_traces(n_conf)
     if len(behaviours) < 8:
         raise MachineryError(f"only {len(behaviours)} behaviours exported")
     per_rule = projections(behaviours)
